@@ -44,6 +44,9 @@ THEOREMS = [P + t for t in (
     "uncoupled_site_is_compute_dynamics", "site_sequence_eq", "uncoupled_reduced_state",
     "two_site_exact", "commuting_gates_exact", "uncoupled_gates_commute",
     "norm_step", "norm_one", "partial_trace_consistent",
+    "site_dissipator_trace_annihilating", "nn_dissipator_trace_annihilating",
+    "hamiltonian_terms_trace_annihilating", "dissipators_hermiticity_preserving",
+    "hamiltonian_terms_hermiticity_preserving", "kronecker_is_pairing",
 )]
 
 KEY_MODE = "execution mode %s unusable in a fresh interpreter (%s)"
@@ -80,13 +83,26 @@ def _diag(rng, d, scale):
     return np.diag([scale * rng.uniform(-1, 1) for _ in range(d)]).astype(complex)
 
 
+def _nonnormal(rng, d):
+    """a random operator that does not commute with its adjoint"""
+    while True:
+        a = np.array([[rng.gauss(0, 1) + 1j * rng.gauss(0, 1) for _ in range(d)] for _ in range(d)])
+        a = a / np.linalg.norm(a, 2)
+        if rng.random() < 0.3:        # ladder-like: strictly upper / lower triangular
+            a = np.triu(a, 1) if rng.random() < 0.5 else np.tril(a, -1)
+            a = a / max(np.linalg.norm(a, 2), 1e-3)
+        if np.abs(a @ a.conj().T - a.conj().T @ a).max() > 0.2:
+            return a
+
+
 def gen_spec(rng, n, kind, order, dims=None, pts=None, steps=2, dt=None, epsrel=1e-8,
-             sites=None, dissipation=None):
+             sites=None, dissipation=None, nn_dissipation=None):
     """kind: 'coupled' | 'uncoupled' | 'commuting' (diagonal site and coupling operators)"""
     dims = dims or [2] * n
     dt = dt if dt is not None else rng.choice([0.1, 0.05, 0.2])
     dissipation = rng.random() < 0.5 if dissipation is None else dissipation
-    site_h, site_diss, nn_h = [], [], []
+    nn_dissipation = (kind != "uncoupled") if nn_dissipation is None else nn_dissipation
+    site_h, site_diss, nn_h, nn_diss = [], [], [], []
     for j in range(n):
         d = dims[j]
         site_h.append(enc(_diag(rng, d, 1.0) if kind == "commuting" else _herm(rng, d, 0.8)))
@@ -95,9 +111,7 @@ def gen_spec(rng, n, kind, order, dims=None, pts=None, steps=2, dt=None, epsrel=
             if kind == "commuting":
                 dl.append([rng.uniform(0.05, 0.3), enc(_diag(rng, d, 1.0))])
             else:
-                a = np.array([[rng.gauss(0, 1) + 1j * rng.gauss(0, 1) for _ in range(d)]
-                              for _ in range(d)]) / d
-                dl.append([rng.uniform(0.05, 0.3), enc(a)])
+                dl.append([rng.uniform(0.05, 0.3), enc(_nonnormal(rng, d))])
         site_diss.append(dl)
     for i in range(n - 1):
         terms = []
@@ -108,11 +122,20 @@ def gen_spec(rng, n, kind, order, dims=None, pts=None, steps=2, dt=None, epsrel=
                 else:
                     terms.append([enc(_herm(rng, dims[i], 0.7)), enc(_herm(rng, dims[i + 1], 1.0))])
         nn_h.append(terms)
+        dterms = []
+        if nn_dissipation and kind != "uncoupled":
+            if kind == "commuting":
+                dterms.append([rng.uniform(0.1, 0.4), enc(_diag(rng, dims[i], 1.0)),
+                               enc(_diag(rng, dims[i + 1], 1.0))])
+            else:
+                dterms.append([rng.uniform(0.2, 0.8), enc(_nonnormal(rng, dims[i])),
+                               enc(_nonnormal(rng, dims[i + 1]))])
+        nn_diss.append(dterms)
     if sites is None:
         sites = list(range(n)) + [[0, 1]]
         if n >= 3:
             sites += [[0, n - 1], list(range(n))] if n <= 4 else [[1, n - 1]]
-    return {"dims": dims, "site_h": site_h, "site_diss": site_diss, "nn_h": nn_h,
+    return {"dims": dims, "site_h": site_h, "site_diss": site_diss, "nn_h": nn_h, "nn_diss": nn_diss,
             "rho0": [enc(_dm(rng, d)) for d in dims], "pts": pts or [None] * n, "order": order,
             "dt": dt, "epsrel": epsrel, "steps": steps, "sites": sites, "controls": [],
             "kind": kind}
@@ -154,6 +177,8 @@ def build(spec):
     for i in range(n - 1):
         for a, b in spec["nn_h"][i]:
             sc.add_nn_hamiltonian(i, dec(a), dec(b))
+        for g, a, b in (spec.get("nn_diss") or [[]] * (n - 1))[i]:
+            sc.add_nn_dissipation(i, dec(a), dec(b), g)
     mps = oqupy.AugmentedMPS([dec(r) for r in spec["rho0"]])
     pts = [make_pt(p, spec["dt"], spec["steps"]) for p in spec["pts"]]
     par = oqupy.PtTebdParameters(dt=spec["dt"], order=spec["order"], epsrel=spec["epsrel"])
@@ -389,7 +414,13 @@ def oracle_norm(spec, real=None):
         max(1e-9, 50 * spec["epsrel"])
     err = float(np.abs(real["norm"] - 1.0).max())
     if err > tol:
-        bad.append(("norm drifts from one", {"spec": spec, "max_abs_deviation": err, "tolerance": tol}))
+        what = "norm drifts from one"
+        if any(spec.get("nn_diss") or []):
+            what += " (chain with nearest-neighbour dissipators)"
+        elif any(spec["site_diss"]):
+            what += " (chain with site dissipators)"
+        bad.append((what, {"spec": spec, "max_abs_deviation": err, "tolerance": tol,
+                           "norm": [complex(x).real for x in real["norm"]]}))
     for key, states in real["dyn"].items():
         for step, st in enumerate(states):
             if abs(np.trace(st) - real["norm"][step]) > 1e-8:
@@ -681,7 +712,14 @@ def parse_dense(answer, b, spec):
     """-> (norms, {key: [vectors per step]})"""
     norms, dyn = [], {}
     keys = [str(s) if isinstance(s, int) else ",".join(str(x) for x in s) for s in b.sites]
-    for rec in answer.split(" # "):
+    recs = answer.split(" # ")
+    hyp = {}
+    if recs and recs[-1].startswith("hyp "):
+        for kv in recs.pop().split()[1:]:
+            k, v = kv.split("=")
+            hyp[k] = float(fw.parse_rat(v)) ** 0.5
+    parse_dense.hyp = hyp
+    for rec in recs:
         parts = rec.split(" ; ")
         norms.append(parse_crat(parts[0]))
         for key, p in zip(keys, parts[1:]):
@@ -989,17 +1027,65 @@ def correspondence(res, tier, rng):
 
         def chk(ans, real=real, b=b, spec=spec):
             norms, dyn = parse_dense(ans, b, spec)
+            hyp = dict(parse_dense.hyp)
             err = float(np.abs(norms - real["norm"]).max())
             for key, vecs in dyn.items():
                 keep = [int(x) for x in key.split(",")]
                 for v, st in zip(vecs, real["dyn"][key]):
                     err = max(err, float(np.abs(vec_to_dm(v, spec["dims"], keep) - st).max()))
-            return err < 1e-8, "max abs difference %.3g" % err
+            # hypotheses of norm_step on the real tensors (exact residuals of float data: the
+            # gates carry the round-off of expm and the truncation epsrel of their SVD split,
+            # PT-TEMPO process tensors their own truncation)
+            tol = {"gate": 1e-9, "ctrl": 1e-12, "pt": 1e-9}
+            badh = {k: v for k, v in hyp.items() if v > tol.get(k, 1e-9)}
+            res.hyp_max = {k: max(v, getattr(res, "hyp_max", {}).get(k, 0.0)) for k, v in hyp.items()}
+            if sorted(hyp) != ["ctrl", "gate", "pt"]:
+                return False, "no hypothesis residuals in the answer"
+            if badh:
+                res.hyp_violations = getattr(res, "hyp_violations", []) + [(spec, badh)]
+                return False, "the real tensors violate the hypotheses of norm_step: %r" % badh
+            return err < 1e-8, "max abs difference %.3g; hypothesis residuals %r" % (err, hyp)
         add(line, chk)
         res.count("dense:n=%d,order=%d,pts=%s,ctrl=%d" % (
             len(spec["dims"]), spec["order"], "".join("T" if p and p["kind"] == "tempo" else
                                                       "I" if p else "-" for p in spec["pts"]),
             len(spec["controls"])))
+
+    # -- (5b) the generated Liouvillian contributions on random operators ------------------------
+    for _ in range(3 if tier == "quick" else 12):
+        for kind in ("siteH", "siteD", "nnH", "nnD"):
+            d1, d2 = rng.choice([2, 2, 3]), rng.choice([2, 2, 3])
+            two = kind.startswith("nn")
+            if kind.endswith("H"):
+                a, bb = _herm(rng, d1, 1.0), _herm(rng, d2, 1.0)
+            else:
+                a, bb = _nonnormal(rng, d1), _nonnormal(rng, d2)
+            g = rng.uniform(0.1, 1.5)
+            sc = oqupy.SystemChain([d1, d2])
+            if kind == "siteH":
+                sc.add_site_hamiltonian(0, a)
+                want = sc.site_liouvillians[0]
+            elif kind == "siteD":
+                sc.add_site_dissipation(0, a, g)
+                want = sc.site_liouvillians[0]
+            elif kind == "nnH":
+                sc.add_nn_hamiltonian(0, a, bb)
+                want = sc.nn_liouvillians[0]
+            else:
+                sc.add_nn_dissipation(0, a, bb, g)
+                want = sc.nn_liouvillians[0]
+
+            def chk(ans, want=np.array(want)):
+                head, body = ans.split(" | ")
+                got = np.array([parse_crat(t) for t in body.split()]).reshape(want.shape)
+                err = float(np.abs(got - want).max())
+                return head == "tr=0 herm=0" and err < 1e-12, \
+                    "tr=0 herm=0, max abs difference %.3g" % err
+            line = "lind %s %d %d %s | %s" % (kind, d1, d2, crat(g), flat(a))
+            if two:
+                line += " | " + flat(bb)
+            add(line, chk)
+            res.count("lind:" + kind)
 
     # -- (6) weights ---------------------------------------------------------------------------
     for n in (2, 3, 6):
@@ -1023,11 +1109,15 @@ def correspondence(res, tier, rng):
         except Exception as e:      # noqa: BLE001
             ok, want = False, "unparsable answer (%s)" % type(e).__name__
         op = line.split()[0]
-        res.case(line[:300], op in ("run", "sched", "nnfull", "layers"),
+        res.case(line[:300], op in ("run", "sched", "nnfull", "layers", "lind"),
                  {"op": line[:120], "impl": str(want)[:120], "model": ans[:120]})
         if not ok:
             res.disagree("model and implementation differ on: " + line[:160],
                          {"line": line[:2000], "impl": str(want)[:400], "model": ans[:400]})
+
+    if hasattr(res, "hyp_max"):
+        res.notes.append("largest residuals of the hypotheses of norm_step on the real tensors: "
+                         + ", ".join("%s %.2g" % kv for kv in sorted(res.hyp_max.items())))
 
     # -- (7) spec-level relations on the real code ----------------------------------------------
     rel = []
@@ -1086,8 +1176,16 @@ def search(res, rng=None):
     compare_modes(res, [gen_spec(rng, 3, "coupled", 2, steps=2),
                         gen_spec(rng, 4, "coupled", 1, steps=2, pts=[None, tempo, None, None])],
                   fail=True)
-    # (b) relations of the property text
-    todo = [("two-site", gen_spec(rng, 2, "coupled", o, steps=3, epsrel=1e-10, sites=[0, 1, [0, 1]]))
+    # (b) relations of the property text; first the inputs on which the real tensors violated the
+    #     hypotheses of norm_step, then ladder-operator dissipators (hopping, pair decay)
+    todo = [("coupled", spec) for spec, _ in getattr(res, "hyp_violations", [])[:3]]
+    sm = np.array([[0, 0], [1, 0]], dtype=complex)
+    for n, (opl, opr_), g in ((3, (sm, sm.T), 0.9), (2, (sm, sm), 1.2)):
+        spec = gen_spec(rng, n, "coupled", 2, steps=3, epsrel=1e-10, nn_dissipation=False,
+                        sites=list(range(n)) + [[0, 1]])
+        spec["nn_diss"] = [[[g, enc(opl), enc(opr_)]] for _ in range(n - 1)]
+        todo.append(("two-site" if n == 2 else "coupled", spec))
+    todo += [("two-site", gen_spec(rng, 2, "coupled", o, steps=3, epsrel=1e-10, sites=[0, 1, [0, 1]]))
             for o in (1, 2)]
     todo += [("uncoupled", gen_spec(rng, n, "uncoupled", o, steps=3, epsrel=1e-10,
                                     pts=[tempo] + [None] * (n - 1), sites=list(range(n)) + [[0, 1]]))
@@ -1150,7 +1248,14 @@ def run(tier, seed, replay):
         "exactly with the symbolic run of the schedule model, resulting tensors to 1e-12 between "
         "orders; dense model: 2-4 site chains (dims 2/3, orders 1/2, none / identity / PT-TEMPO "
         "process tensors, stacked controls) with the real gate tensors, MPOs, caps and controls "
-        "shipped as exact rationals vs the recorded norm and every recorded site subset (1e-8); "
+        "shipped as exact rationals vs the recorded norm and every recorded site subset (1e-8), "
+        "and the HYPOTHESES of norm_step (every shipped gate, control, process-tensor MPO/cap "
+        "preserves the trace covector) evaluated exactly on those tensors (residual <= 1e-9; "
+        "observed 1e-14); chains carry random non-normal site and nearest-neighbour dissipators "
+        "(add_site_dissipation / add_nn_dissipation); generated Lindblad terms (ChainLindblad) "
+        "evaluated on random Hermitian / non-normal operators (dims 2/3) vs the real "
+        "add_site_* / add_nn_* Liouvillians (1e-12) with tr∘L = 0 and Hermiticity preservation "
+        "exactly zero in rational arithmetic; "
         "modes: chains of 2-5 (2-6) sites in {absent, multithread, multiprocess}, each in a fresh "
         "interpreter, results to 1e-12; relations on the real code: uncoupled = per-site "
         "compute_dynamics, two-site and commuting chains = expm of the full Liouvillian (1e-8), "
@@ -1166,6 +1271,9 @@ def run(tier, seed, replay):
         "processes only see the copies handed to them (the translator checks that _apply_nn_gate "
         "is a module-level function that does not refer to self or globals)",
         "dt/2.0 and dt/4.0 are exact in binary64 (no underflow)",
+        "expm(t·L) preserves the trace covector when L annihilates it (links the Lindblad-form "
+        "theorems to hypothesis hg of norm_step; the residual of hg is also measured on every "
+        "shipped gate)",
         "process-tensor caps: cap_{k+1} closed over MPO k with the trace gives cap_k (shown for "
         "PT-TEMPO process tensors in C04) — hypothesis hT of norm_step",
     ]
@@ -1208,7 +1316,7 @@ def run(tier, seed, replay):
             fw.log("OK property=%s replay=%s no longer fails" % (PID, replay))
         return rc
 
-    fw.standard_pipeline(res, ["TebdLayers", "ControlCompose"], THEOREMS)
+    fw.standard_pipeline(res, ["TebdLayers", "ChainLindblad", "ControlCompose"], THEOREMS)
     built = all(o[1] for o in res.obligations if o[0].startswith("translator"))
     try:
         if built:
